@@ -346,6 +346,38 @@ struct CompressedPGMIndex<K, Epsilon, EpsilonRecursive, Floating>::CompressedLev
             slopes_map.back() = slopes_table[*std::prev(last_slope)];
     }
 
+    // sel1 points to compressed_intercepts: a copy/move must bind it to the new object's own vector
+    CompressedLevel(const CompressedLevel &other)
+        : keys(other.keys),
+          slopes_map(other.slopes_map),
+          intercept_offset(other.intercept_offset),
+          compressed_intercepts(other.compressed_intercepts),
+          sel1(&compressed_intercepts) {}
+
+    CompressedLevel(CompressedLevel &&other)
+        : keys(std::move(other.keys)),
+          slopes_map(std::move(other.slopes_map)),
+          intercept_offset(other.intercept_offset),
+          compressed_intercepts(std::move(other.compressed_intercepts)),
+          sel1(&compressed_intercepts) {}
+
+    CompressedLevel &operator=(const CompressedLevel &other) {
+        if (this != &other)
+            *this = CompressedLevel(other);
+        return *this;
+    }
+
+    CompressedLevel &operator=(CompressedLevel &&other) {
+        if (this != &other) {
+            keys = std::move(other.keys);
+            slopes_map = std::move(other.slopes_map);
+            intercept_offset = other.intercept_offset;
+            compressed_intercepts = std::move(other.compressed_intercepts);
+            sel1.set_vector(&compressed_intercepts);
+        }
+        return *this;
+    }
+
     inline size_t operator()(const std::vector<Floating> &slopes, size_t i, K k) const {
         // saturate: the product may exceed the range of int64_t for keys far away from the segment
         auto p = get_slope(slopes, i) * (k - keys[i]);
